@@ -100,13 +100,14 @@ struct Case {
 	int base = 0; // 0 as created, 1 every attribute but eye data populated, 2 eye data populated too (BSTriShape family)
 	std::string setter;
 	int T = 0; // boundary
+	bool fullprec = false; // small, FO4/FO76 only: BSTriShape::SetFullPrecision(true) after creation -> float positions in the file
 };
 
 static const char* const BASES[] = {"fresh", "populated", "populated+eye"};
 static J case_json(const Case& c) {
 	J j = J::obj();
 	j.set("family", c.fam).set("version", g_vers[c.ver].name).set("V", c.V).set("arr", c.arr).set("uv", c.uv).set("normals", c.nrm);
-	if (c.fam == "small") j.set("trimask", (long long) c.trimask);
+	if (c.fam == "small") j.set("trimask", (long long) c.trimask).set("fullprec", c.fullprec);
 	if (c.fam == "setter") j.set("trimask", (long long) c.trimask).set("base", BASES[c.base]).set("setter", c.setter);
 	if (c.fam == "boundary") j.set("T", c.T);
 	return j;
@@ -124,6 +125,7 @@ static Case case_from_json(const J& j) {
 	for (int b = 0; b < 3; b++) if (j["base"].str() == BASES[b]) c.base = b;
 	c.setter = j["setter"].str();
 	c.T = (int) j["T"].i64();
+	c.fullprec = j["fullprec"].b;
 	return c;
 }
 
@@ -187,7 +189,7 @@ static Mesh make_big_mesh(int V, int T, int arr, bool uv, bool nrm) {
 }
 
 static uint64_t mesh_hash(const Case& c, const Mesh& m) {
-	uint64_t h = vf::fnv(std::string(g_vers[c.ver].name) + "/" + c.fam + "/" + c.setter + "/" + BASES[c.base]);
+	uint64_t h = vf::fnv(std::string(g_vers[c.ver].name) + "/" + c.fam + "/" + c.setter + "/" + BASES[c.base] + (c.fullprec ? "/fp" : ""));
 	unsigned char flags[2] = {(unsigned char) m.uv, (unsigned char) m.nrm};
 	h = vf::fnv(flags, 2, h);
 	if (!m.verts.empty()) h = vf::fnv(m.verts.data(), m.verts.size() * sizeof(Vector3), h);
@@ -386,8 +388,9 @@ static void check_created(Ctx& x, const Ver& v, const Mesh& m, const Snap& s, bo
 		viol(x, "vertex-count:" + when, vf::strf("shape reports %u vertices, %zu were given (%s)", s.nv, m.verts.size(), when.c_str()));
 		return;
 	}
-	if (!cmp_v3(x, m.verts, s.verts, fmt_pos(v, reloaded), fmt_pos(v, reloaded), fmt_pos(v, reloaded), why))
-		viol(x, "positions-readback:" + when, "positions differ " + when + ": " + why);
+	const Fmt fp = x.c.fullprec ? F_FLOAT : fmt_pos(v, reloaded);
+	if (!cmp_v3(x, m.verts, s.verts, fp, fp, fp, why))
+		viol(x, std::string("positions-readback:") + (x.c.fullprec ? "fullprec:" : "") + when, "positions differ " + when + ": " + why);
 	if (!cmp_tris(m.tris, s.tris, why)) viol(x, "triangles-readback:" + when, "triangles differ " + when + ": " + why);
 	if (m.uv) {
 		if (!cmp_v2(x, m.uvs, s.uvs, fmt_uv(v, reloaded), why)) viol(x, "uv-readback:" + when, "UVs differ " + when + ": " + why);
@@ -406,6 +409,12 @@ static void run_create_case(const Case& c, const Mesh& m, Stats& st, bool lenien
 	st.add("evaluations");
 	st.add("creates");
 	if (!shape) { viol(x, "create-returns-null", "CreateShapeFromData returned nullptr"); return; }
+	if (c.fullprec) {
+		auto* bs = dynamic_cast<BSTriShape*>(shape);
+		if (!bs) { viol(x, "fullprec-not-bstrishape", "shape is not a BSTriShape"); return; }
+		bs->SetFullPrecision(true);
+		if (!bs->IsFullPrecision()) viol(x, "fullprec-not-set", "SetFullPrecision(true) leaves IsFullPrecision() false");
+	}
 	const bool over_v = m.verts.size() > NifFile::GetVertexLimit();
 	const bool over_t = m.tris.size() > (size_t) v.tri_limit;
 	Snap s0 = snapshot(nif, shape);
@@ -644,11 +653,12 @@ static std::vector<Case> unit_cases(const Unit& U, bool thorough) {
 		for (int arr = 0; arr < 9; arr++)
 			for (unsigned mask = 0; mask < (1u << npool); mask++)
 				for (int uv = 0; uv < 2; uv++)
-					for (int nr = 0; nr < 2; nr++) {
-						Case c;
-						c.fam = "small"; c.ver = U.ver; c.V = U.V; c.arr = arr; c.trimask = mask; c.uv = uv; c.nrm = nr;
-						out.push_back(c);
-					}
+					for (int nr = 0; nr < 2; nr++)
+						for (int fp = 0; fp < (g_vers[U.ver].half_pos ? 2 : 1); fp++) {
+							Case c;
+							c.fam = "small"; c.ver = U.ver; c.V = U.V; c.arr = arr; c.trimask = mask; c.uv = uv; c.nrm = nr; c.fullprec = fp != 0;
+							out.push_back(c);
+						}
 	}
 	else if (U.fam == "setter") {
 		size_t npool = tri_pool(U.V).size();
@@ -780,7 +790,8 @@ int main(int argc, char** argv) {
 	top.set_info("rule",
 				 vf::strf("complete product, no sampling. small: %zu versions x V=1..%d x 9 cyclic arrangements of the lattice {0,1,-1,0.1,1/3,1000.5,65504,1e-5,-0.0} "
 						  "(vertex i = (L[i+a], L[2i+a+1], L[4i+a+2]), pairwise distinct) x every subset of the fixed triangle pool of that V (V=3: 2, V>=4: 6 triangles; "
-						  "V<3: empty) x UVs present/absent x normals present/absent (unit vectors built from lattice values, and the zero vector). "
+						  "V<3: empty) x UVs present/absent x normals present/absent (unit vectors built from lattice values, and the zero vector); FO4/FO76 additionally with "
+						  "BSTriShape::SetFullPrecision(true) after creation (float positions in the file). "
 						  "setter: same V/arrangements/presence, full pool as triangle list x base {as created; UVs, normals, tangents, bitangents, colours populated; the same plus eye data (BSTriShape family)} x %d setter/getter pairs "
 						  "(positions same count/+1/-1, uvs, normals, tangents, bitangents, colours, eye data, 4 triangle lists, bounds). "
 						  "boundary: V in {1,65535,65536} x T in {0,65535,65536} x %s. "
